@@ -165,7 +165,7 @@ func main() {
 		guarded(r, c)
 		return
 	}
-	n := r.N(168, 2520)
+	n := r.N(840, 12600)
 	if r.Phase == "race" {
 		n = 252
 	}
